@@ -36,7 +36,15 @@ class SimFile:
             if f.get('short') and len(data) > 1:
                 self._apply(data[:len(data) // 2])
             fs.faults.record(f, exc, sim.stamp(), op='write', path=self.name)
+            if f.get('sticky'):
+                # the condition persists (disk full, quota, file size limit):
+                # every later attempt to get buffered data out fails the same way
+                fs.sticky_error = exc
+                self._buf.append((self._pos, bytes(data)))
+                self._buffered += len(data)
             raise exc
+        if fs.sticky_error is not None and not self._special:
+            raise fs.sticky_error
         self._apply(data)
         return len(data)
 
@@ -55,6 +63,8 @@ class SimFile:
     def _flush(self):
         if not self._buf:
             return
+        if self.fs.sticky_error is not None:
+            raise self.fs.sticky_error
         node = self._node
         n = 0
         for pos, data in self._buf:
@@ -145,7 +155,13 @@ class SimFile:
             exc = make_exc(f['exc'], f['id'])
             fs.faults.record(f, exc, fs.sim.stamp(), op='close', path=self.name)
             raise exc
-        self._flush()
+        try:
+            self._flush()
+        except OSError:
+            # like BufferedWriter.close(): the handle is closed, the data is lost
+            self._buf = []
+            self._buffered = 0
+            raise
 
     def __enter__(self):
         return self
@@ -171,6 +187,7 @@ class SimFS:
         self.open_handles = set()
         self.mutations = 0
         self.buffer_size = getattr(world, 'knobs', {}).get('fs_buffer', 8192)
+        self.sticky_error = None
 
     def dest_of(self, path):
         """The tracked destination a path belongs to (itself or its temp)."""
